@@ -236,7 +236,7 @@ fn ref_text(s: &str) -> Option<Option<Vec<u8>>> {
                  let rt = match t.as_str() { "NS" => 2, "CNAME" => 5, _ => 12 };
                  wire(rt, ref_name_to_wire(rest[0].as_bytes(), None)) }
         "MX" => { if rest.len() != 2 { return Some(None); } if hyphen_label(rest[1]) { return Some(None); } match host_verdict(rest[1]) { Some(false) => return Some(None), None => return None, Some(true) => {} } if !name_ok(rest[1]) { return None; }
-                 let pref = match num(rest[0], 65535) { Some(v) => v as u16, None => return if rest[0].bytes().all(|c| c.is_ascii_digit()) { Some(None) } else { None } };
+                 let pref = match num(rest[0], 65535) { Some(v) => v as u16, None => return if rest[0].bytes().all(|c| c.is_ascii_alphanumeric()) && rest[0].len() < 15 { Some(None) } else { None } };
                  wire(15, ref_name_to_wire(rest[1].as_bytes(), None).map(|n| { let mut v = vec![(pref >> 8) as u8, pref as u8]; v.extend(n); v })) }
         "SOA" => {
                  // ns contact ( serial refresh retry expire minimum )
@@ -251,11 +251,13 @@ fn ref_text(s: &str) -> Option<Option<Vec<u8>>> {
                  for x in [nm[0], nm[1]] { match host_verdict(x) { Some(false) => return Some(None), None => return None, Some(true) => {} } }
                  if !name_ok(nm[0]) || !name_ok(nm[1]) { return None; }
                  let mut rd = match (ref_name_to_wire(nm[0].as_bytes(), None), ref_name_to_wire(nm[1].as_bytes(), None)) { (Some(mut x), Some(y)) => { x.extend(y); x }, _ => return None };
-                 for x in &nv { match num(x, u32::MAX as u64) { Some(v) => put32(&mut rd, v as u32), None => return if x.bytes().all(|c| c.is_ascii_digit()) { Some(None) } else { None } } }
+                 for x in &nv { match num(x, u32::MAX as u64) { Some(v) => put32(&mut rd, v as u32), None => return if x.bytes().all(|c| c.is_ascii_alphanumeric()) { Some(None) } else { None } } }
                  wire(6, Some(rd)) }
         "DS" => { if rest.len() != 4 { return None; }
                  // a numeric field that is a plain number above its range is an error (other shapes: no opinion)
                  for (x, max) in [(rest[0], 65535u64), (rest[1], 255), (rest[2], 255)] { if num(x, max).is_none() && !x.is_empty() && x.len() < 15 && x.bytes().all(|c| c.is_ascii_digit()) { return Some(None); } }
+                 // a word where a number belongs (an algorithm mnemonic, a unit suffix): an error
+                 for x in [rest[0], rest[1], rest[2]] { if !x.bytes().all(|c| c.is_ascii_digit()) && x.bytes().all(|c| c.is_ascii_alphanumeric()) { return Some(None); } }
                  let kt = num(rest[0], 65535)?; let alg = num(rest[1], 255)?; let dt = num(rest[2], 255)?;
                  let h = rest[3];
                  // a digest with a character that is not a hex digit is an error (when it is made of letters and digits only; other shapes: no opinion)
@@ -375,7 +377,15 @@ pub fn gen(prop: &str, r: &mut Rng) -> Vec<String> {
             let pad = |r: &mut Rng, v: u64| -> String { if r.chance(1, 12) { format!("{:0w$}", v, w = 11 + r.below(3) as usize) } else { v.to_string() } };
             let num = |r: &mut Rng, max: u64| -> u64 { if r.chance(1, 2) { *r.pick(&[0, 1, max / 2, max - 1, max, max + 1, max * 2 + 1]) } else { r.below(max + max / 16 + 2) } };
             let body = match r.below(11) {
-                10 => match r.below(3) {
+10 => match r.below(6) {
+                    3 => { let w = *r.pick(&["RSASHA1", "RSASHA256", "RSASHA512", "ECDSAP256SHA256", "ED25519", "ED448", "SHA1", "SHA256", "rsasha256", "DH"]);      // a mnemonic where a number belongs
+                           let k = r.below(3); format!("{}{}{} {} {} {}", kw(r, "DS"), ws(r), if k == 0 { w.to_string() } else { num(r, 65535).to_string() }, if k == 1 { w.to_string() } else { num(r, 255).to_string() }, if k == 2 { w.to_string() } else { num(r, 255).to_string() }, hex(&r.bytes(4))) }
+                    4 => { let u = *r.pick(&["s", "m", "h", "d", "w", "H", "k"]); let k = r.below(5) as usize;                                                          // a unit suffix on one SOA number
+                           let nums: Vec<String> = (0..5).map(|i| { let v = r.below(100000); if i == k { format!("{}{}", v, u) } else { v.to_string() } }).collect();
+                           format!("{}{}{}{}{}{}({})", kw(r, "SOA"), ws(r), hn(r), ws(r), hn(r), ws(r), nums.join(" ")) }
+                    5 => { let lab = |r: &mut Rng| -> String { let n = 1 + r.below(3); (0..n).map(|_| r.below(100).to_string()).collect::<Vec<_>>().join("-") };       // names of digits and inner hyphens only
+                           let n = format!("{}.{}{}", lab(r), lab(r), if r.chance(1, 2) { "." } else { "" });
+                           let k = *r.pick(&["NS", "CNAME", "PTR"]); format!("{}{}{}", kw(r, k), ws(r), n) }
                     0 => { let t = *r.pick(&["SRV", "NAPTR", "ANY", "AXFR"]); format!("{} {}", kw(r, t), hn(r)) }                       // a type outside the nine supported ones
                     1 => format!("{}{}{} {} {} {}g{}", kw(r, "DS"), ws(r), num(r, 65535), num(r, 255), num(r, 255), hex(&r.bytes(2)), hex(&r.bytes(1))),   // a non-hex digit in the digest
                     _ => match r.below(3) {
